@@ -1,16 +1,26 @@
 /-
   Line-protocol component for JRV.Model.ServerLife:
-    lifeseq <op>*     high-level life-cycle operations executed by a deterministic fair scheduler over the LTS:
+    lifeseq <plain|pooled> <op>*
+      high-level life-cycle operations executed by a deterministic fair scheduler over the LTS:
         serve        a thread calls serve_forever() and reaches the loop
-        req<b>       a request with body b is accepted, handled and answered
-        slow<b>      a request with body b is accepted and its handler starts (stays in flight)
+        req<b>       a call with body b is accepted, handled and answered        (notif<b>: a notification,
+        fail<b>      … whose method raises an ordinary exception                  fatal<b>: a BaseException,
+        bad<b>       … whose body is malformed)
+        slow<b>      a request with body b is accepted, read by its handler and stays in flight
+        idle<b>      a connection is accepted and its handler started; the client sends nothing (idle connection)
+        idleka<b>    a keep-alive connection: one call answered, then the handler waits for the next request
+        queued<b>    a connection is accepted; its handler task stays in the pool queue
         finish<i>    the in-flight handler of connection i finishes
+        hangup<i>    the client of the idle connection i disconnects
         shutdown     a thread calls shutdown() and waits for it to return
         close        a thread calls server_close() and waits for it to return
       a blocked operation lets the serving thread run; if it is still blocked when the serving thread cannot
-      advance it is reported as `blocked` and left pending (a later `finish` may unblock it: pending operations
-      are resumed after every operation).
-      → `<op result>*  ; sock=<open|closed> pool=<running|stopped> replies=<r0,r1,..>` (reply = body + 1000, `-` if none)
+      advance it is reported as `blocked` and left pending (a later `finish`/`hangup` may unblock it: pending
+      operations are resumed after every operation).
+      → `<op result>* ; sock=<open|closed> pool=<running|stopped> close=<idle|pending|returned> shut=<…>
+           replies=<r0,r1,..> execs=<n0,n1,..>`
+        reply: result = body + 1000, `n` = empty (notification), `E<body+1000>` error for that request, `P` parse error,
+        `-` none.
 -/
 import JRV.Driver.Codec
 import JRV.Model.ServerLife
@@ -18,99 +28,138 @@ import JRV.Model.ServerLife
 namespace JRV.Driver
 open JRV.SL
 
-def lifeF (b : Nat) : Nat := b + 1000
+def lifeF (d : Nat) (b : Nat) : Nat := if d = 0 then b + 1000 else d + 2000000
 
-/-- Let the serving thread run while `blocked s` holds, at most `fuel` steps; `none` = stuck. -/
-def serveUntil (blocked : State → Bool) : Nat → State → State
+structure LifeCtx where
+  cfg : Cfg
+  s : State
+
+/-- Let the serving thread run while `blocked s` holds, at most `fuel` steps. -/
+def serveUntil (cfg : Cfg) (blocked : State → Bool) : Nat → State → State
   | 0, s => s
   | fuel + 1, s =>
     if !blocked s then s
     else match s.spc with
       | .loop => if s.shutdownReq then
-            match step? lifeF s .serveStep with
-            | some s' => serveUntil blocked fuel s'
+            match step? cfg lifeF s .serveStep with
+            | some s' => serveUntil cfg blocked fuel s'
             | none => s
           else s          -- the loop would spin: nothing changes
-      | _ => match step? lifeF s .serveStep with
-        | some s' => serveUntil blocked fuel s'
+      | _ => match step? cfg lifeF s .serveStep with
+        | some s' => serveUntil cfg blocked fuel s'
         | none => s
 
 /-- Advance the closing thread as far as possible (letting the serving thread run when it waits). -/
-def advanceClose : Nat → State → State
+def advanceClose (cfg : Cfg) : Nat → State → State
   | 0, s => s
   | fuel + 1, s =>
     match s.cpc with
     | .idle => s
     | .returned => s
     | _ =>
-      match step? lifeF s .closeStep with
-      | some s' => advanceClose fuel s'
+      match step? cfg lifeF s .closeStep with
+      | some s' => advanceClose cfg fuel s'
       | none =>
-        let s1 := serveUntil (fun t => (step? lifeF t .closeStep).isNone) 10 s
-        match step? lifeF s1 .closeStep with
-        | some s' => advanceClose fuel s'
+        let s1 := serveUntil cfg (fun t => (step? cfg lifeF t .closeStep).isNone) 10 s
+        match step? cfg lifeF s1 .closeStep with
+        | some s' => advanceClose cfg fuel s'
         | none => s1
 
-def advanceShutdown : Nat → State → State
+def advanceShutdown (cfg : Cfg) : Nat → State → State
   | 0, s => s
   | fuel + 1, s =>
     match s.dpc with
     | .idle => s
     | .returned => s
     | _ =>
-      match step? lifeF s .shutdownStep with
-      | some s' => advanceShutdown fuel s'
+      match step? cfg lifeF s .shutdownStep with
+      | some s' => advanceShutdown cfg fuel s'
       | none =>
-        let s1 := serveUntil (fun t => (step? lifeF t .shutdownStep).isNone) 10 s
-        match step? lifeF s1 .shutdownStep with
-        | some s' => advanceShutdown fuel s'
+        let s1 := serveUntil cfg (fun t => (step? cfg lifeF t .shutdownStep).isNone) 10 s
+        match step? cfg lifeF s1 .shutdownStep with
+        | some s' => advanceShutdown cfg fuel s'
         | none => s1
 
-def resumePending (s : State) : State := advanceShutdown 10 (advanceClose 10 s)
+/-- The serving thread, once it has left its loop, runs to its end. -/
+def serveOut (cfg : Cfg) (s : State) : State :=
+  serveUntil cfg (fun t => t.spc != .finished && t.spc != .loop && t.spc != .notStarted) 10 s
 
-def steps (s : State) (as : List Action) : Option State := run lifeF s as
+def resumePending (cfg : Cfg) (s : State) : State :=
+  serveOut cfg (advanceShutdown cfg 10 (advanceClose cfg 10 s))
 
-def lifeOp (s : State) (op : String) : State × String :=
+def steps (cfg : Cfg) (s : State) (as : List Action) : Option State := run cfg lifeF s as
+
+/-- accept, (pooled: start the handler,) then the given per-connection actions -/
+def connOps (cfg : Cfg) (s : State) (b : Nat) (k : Kind) (ka : Bool) (start : Bool) (tail : Nat → List Action) : Option State :=
+  let i := s.conns.length
+  steps cfg s ([.accept b k ka] ++ (if cfg.plain || !start then [] else [.handlerStart i]) ++ tail i)
+
+def numArg (ds : List Char) : Option Nat := (String.ofList ds).toNat?
+
+def lifeOp (cfg : Cfg) (s : State) (op : String) : State × String :=
+  let ok (r : Option State) : Option (State × String) := r.map fun s' => (s', "ok")
   let r : Option (State × String) :=
     if op == "serve" then
-      (steps s [.startServe, .serveStep, .serveStep]).map fun s' => (s', "ok")
+      ok (steps cfg s [.startServe, .serveStep, .serveStep])
     else if op == "shutdown" then
-      (steps s [.beginShutdown]).map fun s1 =>
-        let s2 := advanceShutdown 10 s1
-        -- let the serving thread run to its end
-        let s3 := serveUntil (fun t => t.spc != .finished && t.spc != .loop) 10 s2
-        (s3, if s2.dpc = .returned then "ok" else "blocked")
+      (steps cfg s [.beginShutdown]).map fun s1 =>
+        let s2 := advanceShutdown cfg 10 s1
+        (serveOut cfg s2, if s2.dpc = .returned then "ok" else "blocked")
     else if op == "close" then
-      (steps s [.beginClose]).map fun s1 =>
-        let s2 := advanceClose 10 s1
-        let s3 := serveUntil (fun t => t.spc != .finished && t.spc != .loop && t.spc != .notStarted) 10 s2
-        (s3, if s2.cpc = .returned then "ok" else "blocked")
+      (steps cfg s [.beginClose]).map fun s1 =>
+        let s2 := advanceClose cfg 10 s1
+        (serveOut cfg s2, if s2.cpc = .returned then "ok" else "blocked")
     else match op.toList with
       | 'r' :: 'e' :: 'q' :: ds =>
-        (String.ofList ds).toNat?.bind fun b =>
-          let i := s.conns.length
-          (steps s [.accept b, .handlerStart i, .handlerFinish i]).map fun s' => (s', "ok")
+        (numArg ds).bind fun b => ok (connOps cfg s b .good false true fun i => [.request i, .handlerFinish i])
+      | 'n' :: 'o' :: 't' :: 'i' :: 'f' :: ds =>
+        (numArg ds).bind fun b => ok (connOps cfg s b .notify false true fun i => [.request i, .handlerFinish i])
+      | 'f' :: 'a' :: 'i' :: 'l' :: ds =>
+        (numArg ds).bind fun b => ok (connOps cfg s b .failing false true fun i => [.request i, .handlerFinish i])
+      | 'f' :: 'a' :: 't' :: 'a' :: 'l' :: ds =>
+        (numArg ds).bind fun b => ok (connOps cfg s b .fatal false true fun i => [.request i, .handlerFinish i])
+      | 'b' :: 'a' :: 'd' :: ds =>
+        (numArg ds).bind fun b => ok (connOps cfg s b .malformed false true fun i => [.request i, .handlerFinish i])
       | 's' :: 'l' :: 'o' :: 'w' :: ds =>
-        (String.ofList ds).toNat?.bind fun b =>
-          let i := s.conns.length
-          (steps s [.accept b, .handlerStart i]).map fun s' => (s', "ok")
+        (numArg ds).bind fun b => ok (connOps cfg s b .good false true fun i => [.request i])
+      | 'i' :: 'd' :: 'l' :: 'e' :: 'k' :: 'a' :: ds =>
+        (numArg ds).bind fun b => ok (connOps cfg s b .good true true fun i => [.request i, .handlerFinish i])
+      | 'i' :: 'd' :: 'l' :: 'e' :: ds =>
+        (numArg ds).bind fun b => ok (connOps cfg s b .good false true fun _ => [])
+      | 'q' :: 'u' :: 'e' :: 'u' :: 'e' :: 'd' :: ds =>
+        if cfg.plain then none
+        else (numArg ds).bind fun b => ok (connOps cfg s b .good false false fun _ => [])
       | 'f' :: 'i' :: 'n' :: 'i' :: 's' :: 'h' :: ds =>
-        (String.ofList ds).toNat?.bind fun i => (steps s [.handlerFinish i]).map fun s' => (s', "ok")
+        (numArg ds).bind fun i => ok (steps cfg s [.handlerFinish i])
+      | 'h' :: 'a' :: 'n' :: 'g' :: 'u' :: 'p' :: ds =>
+        (numArg ds).bind fun i => ok (steps cfg s [.clientClose i])
       | _ => none
   match r with
-  | some (s', res) =>
-    let s'' := resumePending s'
-    (s'', res)
+  | some (s', res) => (resumePending cfg s', res)
   | none => (s, "illegal")
 
+def showReply : Option Reply → String
+  | some (.result v) => toString v
+  | some .empty => "n"
+  | some (.error v) => "E" ++ toString v
+  | some .parseError => "P"
+  | none => "-"
+
 def lifeseqC (toks : List String) : String :=
-  let (s, outs) := toks.foldl (fun (acc : State × List String) op =>
-    let (s', r) := lifeOp acc.1 op
-    (s', acc.2 ++ [r])) (init, [])
-  " ".intercalate outs ++ " ; sock=" ++ (if s.socketOpen then "open" else "closed") ++
-    " pool=" ++ (if s.poolStopped then "stopped" else "running") ++
-    " close=" ++ (if s.cpc = .returned then "returned" else if s.cpc = .idle then "idle" else "pending") ++
-    " replies=" ++ ",".intercalate (s.conns.map fun c => match c.reply with | some r => toString r | none => "-")
+  match toks with
+  | [] => "bad-op"
+  | mode :: ops =>
+    if mode != "plain" && mode != "pooled" then "bad-op" else
+    let cfg : Cfg := { plain := mode == "plain" }
+    let (s, outs) := ops.foldl (fun (acc : State × List String) op =>
+      let (s', r) := lifeOp cfg acc.1 op
+      (s', acc.2 ++ [r])) (init, [])
+    " ".intercalate outs ++ " ; sock=" ++ (if s.socketOpen then "open" else "closed") ++
+      " pool=" ++ (if cfg.plain then "none" else if s.poolStopped then "stopped" else "running") ++
+      " close=" ++ (if s.cpc = .returned then "returned" else if s.cpc = .idle then "idle" else "pending") ++
+      " shut=" ++ (if s.dpc = .returned then "returned" else if s.dpc = .idle then "idle" else "pending") ++
+      " replies=" ++ ",".intercalate (s.conns.map fun c => showReply c.reply) ++
+      " execs=" ++ ",".intercalate (s.conns.map fun c => toString c.execs)
 
 def serverLifeComponents : List (String × (List String → String)) := [("lifeseq", lifeseqC)]
 
